@@ -53,6 +53,7 @@ class Ctx:
         self.discharged = 0
         self.notes: List[str] = []
         self._sample_per_rule: Dict[str, int] = {}
+        self.write = True
 
     # -- recording ---------------------------------------------------------------------
     def rule(self, rid: str, doc: str) -> None:
@@ -123,16 +124,18 @@ def finish(ctx: Ctx, explanation: str, level: str = "other") -> int:
         else:
             new.append(f)
     rep_dir = os.path.join(VERIF, "reports", ctx.prop)
-    os.makedirs(rep_dir, exist_ok=True)
-    for fn in os.listdir(rep_dir):
-        if fn.endswith(".json"):
-            os.unlink(os.path.join(rep_dir, fn))
+    if ctx.write:
+        os.makedirs(rep_dir, exist_ok=True)
+        for fn in os.listdir(rep_dir):
+            if fn.endswith(".json"):
+                os.unlink(os.path.join(rep_dir, fn))
     for f in matched:
         print(f"KNOWN-FINDING: property={ctx.prop} {f.rule} {f.construct}: {f.what}")
     for i, f in enumerate(new, 1):
         path = os.path.join(rep_dir, f"{i}.json")
-        with open(path, "w") as fh:
-            json.dump(f.as_dict(), fh, indent=1)
+        if ctx.write:
+            with open(path, "w") as fh:
+                json.dump(f.as_dict(), fh, indent=1)
         print(f"  {f.rule} {f.construct} [{f.where}]: {f.what}")
         print(f"VIOLATION property={ctx.prop} replay={path}")
     wall = time.time() - ctx.t0
@@ -170,10 +173,11 @@ def finish(ctx: Ctx, explanation: str, level: str = "other") -> int:
         "wall_s": round(wall, 3),
         "violations": len(new),
     }
-    ev_dir = os.path.join(VERIF, "evidence")
-    os.makedirs(ev_dir, exist_ok=True)
-    with open(os.path.join(ev_dir, f"{ctx.prop}.json"), "w") as fh:
-        json.dump(ev, fh, indent=1, default=str)
+    if ctx.write:
+        ev_dir = os.path.join(VERIF, "evidence")
+        os.makedirs(ev_dir, exist_ok=True)
+        with open(os.path.join(ev_dir, f"{ctx.prop}.json"), "w") as fh:
+            json.dump(ev, fh, indent=1, default=str)
     print(
         f"[{ctx.prop}] tier={ctx.tier} rule-instances={evaluations} distinct={distinct} "
         f"functions={len(ctx.functions_analysed)} known={len(matched)} violations={len(new)} wall={wall:.2f}s"
